@@ -71,6 +71,10 @@ func overlayFor(verif, repo string, v variant) (map[string]string, string) {
 		for f := range files {
 			src, err := os.ReadFile(filepath.Join(repo, f))
 			if err != nil {
+				if strings.Contains(string(raw), "new file mode") {
+					_ = os.MkdirAll(filepath.Dir(filepath.Join(tmp, f)), 0o755)
+					continue // created by the patch
+				}
 				return nil, "file in patch missing: " + f
 			}
 			_ = os.MkdirAll(filepath.Dir(filepath.Join(tmp, f)), 0o755)
